@@ -443,7 +443,9 @@ def childLeftVal (zl kl : Bytes) : Nat := Bytes.toNatLE (zl.take 28) * 8 + Bytes
 
 theorem kholawNewLeft_kholaw_eq (zl kl : Bytes) :
     kholawNewLeft .kholaw zl kl =
-      if childLeftVal zl kl % edL = 0 then .error .key else toBytesLE (childLeftVal zl kl) 32 := by
+      if childLeftVal zl kl % edL = 0 then .error .key
+      else if 2 ^ 256 ≤ childLeftVal zl kl then .error .key
+      else toBytesLE (childLeftVal zl kl) 32 := by
   unfold kholawNewLeft childLeftVal
   rw [if_neg (by decide)]
   rfl
@@ -460,7 +462,9 @@ theorem kholaw_child_left_spec (zl kl r : Bytes) (h : kholawNewLeft .kholaw zl k
   rw [kholawNewLeft_kholaw_eq] at h
   split at h
   · cases h
-  · exact toBytesLE_toNatLE h
+  · split at h
+    · cases h
+    · exact toBytesLE_toNatLE h
 
 theorem kholaw_child_left_ok_iff (zl kl : Bytes) :
     (∃ r, kholawNewLeft .kholaw zl kl = .ok r) ↔
@@ -468,41 +472,59 @@ theorem kholaw_child_left_ok_iff (zl kl : Bytes) :
   rw [kholawNewLeft_kholaw_eq]
   by_cases hz : childLeftVal zl kl % edL = 0
   · rw [if_pos hz]; simp [hz]
-  · rw [if_neg hz, toBytesLE_ok_iff, pow256_32]; simp [hz]
-
-/-- it raises `Bip32KeyError` exactly when the sum is `≡ 0 (mod L)` -/
-theorem kholaw_child_left_key_iff (zl kl : Bytes) :
-    kholawNewLeft .kholaw zl kl = .error .key ↔ childLeftVal zl kl % edL = 0 := by
-  rw [kholawNewLeft_kholaw_eq]
-  by_cases hz : childLeftVal zl kl % edL = 0
-  · rw [if_pos hz]; simp [hz]
   · rw [if_neg hz]
-    constructor
-    · intro h
-      by_cases hv : childLeftVal zl kl < 256 ^ 32
-      · rw [toBytesLE_eq_ok _ _ hv] at h; cases h
-      · rw [toBytesLE_eq_error _ _ (by omega)] at h; cases h
-    · intro h; exact absurd h hz
+    by_cases hv : 2 ^ 256 ≤ childLeftVal zl kl
+    · rw [if_pos hv]
+      constructor
+      · rintro ⟨r, h⟩; cases h
+      · rintro ⟨_, h⟩; omega
+    · rw [if_neg hv, toBytesLE_ok_iff, pow256_32]; simp [hz]
 
-/-- and `OverflowError` (`int.to_bytes`) exactly when the sum is `≥ 2^256` and not a multiple of
-`L` (the `% L` test comes first; `16·L` is a reachable multiple of `L` above `2^256`, see
-`kholaw_child_left_key_above_2_256`) -/
-theorem kholaw_child_left_overflow_iff (zl kl : Bytes) :
-    kholawNewLeft .kholaw zl kl = .error .overflow ↔
-      childLeftVal zl kl % edL ≠ 0 ∧ 2 ^ 256 ≤ childLeftVal zl kl := by
-  rw [kholawNewLeft_kholaw_eq]
-  by_cases hz : childLeftVal zl kl % edL = 0
-  · rw [if_pos hz]; simp [hz]
-  · rw [if_neg hz, toBytesLE_error_iff, pow256_32]; simp [hz]
-
+/-- every failure of the Khovratovich-Law left half is a `Bip32KeyError` (since the library fix
+there is no `OverflowError` any more) -/
 theorem kholaw_child_left_errors (zl kl : Bytes) (e : Err) (h : kholawNewLeft .kholaw zl kl = .error e) :
-    e = .key ∨ e = .overflow := by
+    e = .key := by
   rw [kholawNewLeft_kholaw_eq] at h
   split at h
-  · cases h; exact Or.inl rfl
-  · by_cases hv : childLeftVal zl kl < 256 ^ 32
-    · rw [toBytesLE_eq_ok _ _ hv] at h; cases h
-    · rw [toBytesLE_eq_error _ _ (by omega)] at h; cases h; exact Or.inr rfl
+  · cases h; rfl
+  · split at h
+    · cases h; rfl
+    · next hv =>
+      rw [toBytesLE_eq_ok _ _ (by rw [pow256_32]; omega)] at h; cases h
+
+/-- it raises `Bip32KeyError` exactly when the sum is `≡ 0 (mod L)` or needs more than 32 bytes -/
+theorem kholaw_child_left_key_iff (zl kl : Bytes) :
+    kholawNewLeft .kholaw zl kl = .error .key ↔
+      childLeftVal zl kl % edL = 0 ∨ 2 ^ 256 ≤ childLeftVal zl kl := by
+  constructor
+  · intro h
+    by_contra hn
+    have hok := (kholaw_child_left_ok_iff zl kl).mpr ⟨fun hz => hn (Or.inl hz), by omega⟩
+    obtain ⟨r, hr⟩ := hok
+    rw [hr] at h; cases h
+  · intro h
+    rw [kholawNewLeft_kholaw_eq]
+    by_cases hz : childLeftVal zl kl % edL = 0
+    · rw [if_pos hz]
+    · rw [if_neg hz, if_pos (h.resolve_left hz)]
+
+/-- any failure at all is equivalent to that condition -/
+theorem kholaw_child_left_error_iff (zl kl : Bytes) (e : Err) :
+    kholawNewLeft .kholaw zl kl = .error e ↔
+      e = .key ∧ (childLeftVal zl kl % edL = 0 ∨ 2 ^ 256 ≤ childLeftVal zl kl) := by
+  constructor
+  · intro h
+    have he := kholaw_child_left_errors zl kl e h
+    subst he
+    exact ⟨rfl, (kholaw_child_left_key_iff zl kl).mp h⟩
+  · rintro ⟨rfl, h⟩; exact (kholaw_child_left_key_iff zl kl).mpr h
+
+/-- `OverflowError` (`int.to_bytes`) is never raised: a sum `≥ 2^256` is refused with
+`Bip32KeyError` before the conversion -/
+theorem kholaw_child_left_never_overflow (zl kl : Bytes) :
+    kholawNewLeft .kholaw zl kl ≠ .error .overflow := by
+  intro h
+  cases kholaw_child_left_errors zl kl _ h
 
 /-- **kholaw_child_invariant**: divisibility by 8 is inherited, each level adds less than `2^227` -/
 theorem kholaw_child_invariant (zl kl r : Bytes) (h : kholawNewLeft .kholaw zl kl = .ok r) :
@@ -554,39 +576,98 @@ theorem kholaw_depth_bound_256 (zs : List Bytes) (kl r : Bytes) (hm : Bytes.toNa
   have : zs.length * 2 ^ 227 ≤ 255 * 2 ^ 227 := Nat.mul_le_mul_right _ hd
   omega
 
-/-- … so `int.to_bytes(…, 32)` never raises `OverflowError` along a path of at most `2^28` levels
-(the library's depth limit is 255) starting from a scalar below `2^255` -/
+theorem kholawLeftChain_append (pre post : List Bytes) (kl : Bytes) :
+    kholawLeftChain (pre ++ post) kl = kholawLeftChain pre kl >>= kholawLeftChain post := by
+  unfold kholawLeftChain; rw [List.foldlM_append]
+
+/-- … so the size refusal (the sum needing more than 32 bytes; `OverflowError` before the library
+fix, `Bip32KeyError` since) never happens along a chain of at most `2^28` levels (the library's
+depth limit is 255) starting from a scalar below `2^255`: at every level of the chain — after any
+prefix `pre` that succeeded with `r`, for the next `z` — the sum is below `2^256` -/
 theorem kholaw_no_overflow (zs : List Bytes) (kl : Bytes)
-    (hm : Bytes.toNatLE kl + zs.length * 2 ^ 227 ≤ 2 ^ 256) :
-    kholawLeftChain zs kl ≠ .error .overflow := by
+    (hm : Bytes.toNatLE kl + zs.length * 2 ^ 227 ≤ 2 ^ 256)
+    (pre : List Bytes) (z : Bytes) (post : List Bytes) (hzs : zs = pre ++ z :: post) (r : Bytes)
+    (hr : kholawLeftChain pre kl = .ok r) : childLeftVal z r < 2 ^ 256 := by
+  have hb := (kholaw_depth_bound pre kl r hr).1
+  have hlt := childLeftVal_lt z r
+  subst hzs
+  simp only [List.length_append, List.length_cons, Nat.add_mul, Nat.one_mul] at hm
+  omega
+
+/-- hence along such a chain the only reason for a level to fail is `≡ 0 (mod L)` -/
+theorem kholaw_chain_step_error_iff (zs : List Bytes) (kl : Bytes)
+    (hm : Bytes.toNatLE kl + zs.length * 2 ^ 227 ≤ 2 ^ 256)
+    (pre : List Bytes) (z : Bytes) (post : List Bytes) (hzs : zs = pre ++ z :: post) (r : Bytes)
+    (hr : kholawLeftChain pre kl = .ok r) (e : Err) :
+    kholawNewLeft .kholaw z r = .error e ↔ e = .key ∧ childLeftVal z r % edL = 0 := by
+  have hv := kholaw_no_overflow zs kl hm pre z post hzs r hr
+  rw [kholaw_child_left_error_iff]
+  constructor
+  · rintro ⟨he, h | h⟩
+    · exact ⟨he, h⟩
+    · omega
+  · rintro ⟨he, h⟩; exact ⟨he, Or.inl h⟩
+
+/-- … and a failing chain fails with `Bip32KeyError` at a level whose sum is `≡ 0 (mod L)` (and
+below `2^256`) -/
+theorem kholaw_chain_error (zs : List Bytes) (kl : Bytes)
+    (hm : Bytes.toNatLE kl + zs.length * 2 ^ 227 ≤ 2 ^ 256) (e : Err)
+    (h : kholawLeftChain zs kl = .error e) :
+    e = .key ∧ ∃ pre z post r, zs = pre ++ z :: post ∧ kholawLeftChain pre kl = .ok r ∧
+      childLeftVal z r % edL = 0 ∧ childLeftVal z r < 2 ^ 256 := by
   induction zs generalizing kl with
-  | nil => simp [kholawLeftChain, pure, Except.pure]
+  | nil => simp [kholawLeftChain, pure, Except.pure] at h
   | cons z zs ih =>
-    rw [kholawLeftChain_cons]
-    simp only [List.length_cons, Nat.add_mul, Nat.one_mul] at hm
-    intro h
+    rw [kholawLeftChain_cons] at h
     rcases (Slip10.bind_error_iff _ _ _).mp h with h1 | ⟨k1, h1, h2⟩
-    · have := ((kholaw_child_left_overflow_iff z kl).mp h1).2
-      have := childLeftVal_lt z kl
-      omega
+    · have hv := kholaw_no_overflow (z :: zs) kl hm [] z zs rfl kl rfl
+      obtain ⟨he, hc⟩ := (kholaw_child_left_error_iff z kl e).mp h1
+      refine ⟨he, [], z, zs, kl, rfl, rfl, ?_, hv⟩
+      rcases hc with hc | hc
+      · exact hc
+      · omega
     · obtain ⟨_, _, c, _⟩ := kholaw_child_invariant z kl k1 h1
-      exact ih k1 (by omega) h2
+      simp only [List.length_cons, Nat.add_mul, Nat.one_mul] at hm
+      obtain ⟨he, pre, z', post, r, hzs, hr, hmod, hlt⟩ := ih k1 (by omega) h2
+      refine ⟨he, z :: pre, z', post, r, by rw [hzs]; rfl, ?_, hmod, hlt⟩
+      rw [kholawLeftChain_cons, h1]; exact hr
 
 theorem kholaw_no_overflow_master (zs : List Bytes) (kl : Bytes) (hm : Bytes.toNatLE kl < 2 ^ 255)
-    (hd : zs.length ≤ 255) : kholawLeftChain zs kl ≠ .error .overflow := by
-  apply kholaw_no_overflow
+    (hd : zs.length ≤ 255)
+    (pre : List Bytes) (z : Bytes) (post : List Bytes) (hzs : zs = pre ++ z :: post) (r : Bytes)
+    (hr : kholawLeftChain pre kl = .ok r) : childLeftVal z r < 2 ^ 256 := by
+  apply kholaw_no_overflow zs kl _ pre z post hzs r hr
   have : zs.length * 2 ^ 227 ≤ 255 * 2 ^ 227 := Nat.mul_le_mul_right _ hd
   omega
 
-/-- the `% L` test precedes `to_bytes`: a sum of exactly `16·L > 2^256` is reported as
-`Bip32KeyError`, not `OverflowError` -/
+theorem kholaw_chain_error_master (zs : List Bytes) (kl : Bytes) (hm : Bytes.toNatLE kl < 2 ^ 255)
+    (hd : zs.length ≤ 255) (e : Err) (h : kholawLeftChain zs kl = .error e) :
+    e = .key ∧ ∃ pre z post r, zs = pre ++ z :: post ∧ kholawLeftChain pre kl = .ok r ∧
+      childLeftVal z r % edL = 0 ∧ childLeftVal z r < 2 ^ 256 := by
+  apply kholaw_chain_error zs kl _ e h
+  have : zs.length * 2 ^ 227 ≤ 255 * 2 ^ 227 := Nat.mul_le_mul_right _ hd
+  omega
+
+/-- both reasons for refusal can hold at once: a sum of exactly `16·L > 2^256` (the `% L` test is
+the one that fires, it comes first) is reported as `Bip32KeyError` -/
 theorem kholaw_child_left_key_above_2_256 :
     ∃ zl kl : Bytes, zl.length = 32 ∧ kl.length = 32 ∧ 2 ^ 256 ≤ childLeftVal zl kl ∧
-      kholawNewLeft .kholaw zl kl = .error .key := by
+      childLeftVal zl kl % edL = 0 ∧ kholawNewLeft .kholaw zl kl = .error .key := by
   refine ⟨Bytes.ofNatLE 32 55484635554744707071703875581767296987, Bytes.ofNatLE 32 (2 ^ 256 - 8),
-    by simp, by simp, ?_, ?_⟩
+    by simp, by simp, ?_, ?_, ?_⟩
   · decide +kernel
-  · rw [kholaw_child_left_key_iff]; decide +kernel
+  · decide +kernel
+  · rw [kholaw_child_left_key_iff]; exact Or.inl (by decide +kernel)
+
+/-- the size refusal on its own: a sum `≥ 2^256` that is *not* a multiple of `L` is reported as
+`Bip32KeyError` too (this is the case that raised `OverflowError` before the library fix) -/
+theorem kholaw_child_left_key_size_only :
+    ∃ zl kl : Bytes, zl.length = 32 ∧ kl.length = 32 ∧ 2 ^ 256 ≤ childLeftVal zl kl ∧
+      childLeftVal zl kl % edL ≠ 0 ∧ kholawNewLeft .kholaw zl kl = .error .key := by
+  refine ⟨Bytes.ofNatLE 32 1, Bytes.ofNatLE 32 (2 ^ 256 - 8), by simp, by simp, ?_, ?_, ?_⟩
+  · decide +kernel
+  · decide +kernel
+  · rw [kholaw_child_left_key_iff]; exact Or.inr (by decide +kernel)
 
 /-! ### Byron-legacy variant -/
 
@@ -758,9 +839,23 @@ theorem kholawChildKey_kholaw_priv_ok (nd c : Node) (idx : Nat) (k : Bytes)
   obtain ⟨a, b, _, d⟩ := kholawCkdPriv_kholaw_ok nd k idx k' cc hs h1
   exact ⟨k', rfl, hs, rfl, a, b, d⟩
 
-/-- `ChildKey` never raises `OverflowError` while the left scalar is below `2^256 - 2^227` -/
-theorem kholawChildKey_kholaw_no_overflow (nd : Node) (idx : Nat) (k : Bytes)
-    (hs : nd.scheme = .kholaw) (hp : nd.priv = some k) (hk : leftVal k + 2 ^ 227 ≤ 2 ^ 256) :
+/-- a private Khovratovich-Law derivation step fails only with `Bip32KeyError`, and exactly when
+the new left half is `≡ 0 (mod L)` or needs more than 32 bytes -/
+theorem kholawCkdPriv_kholaw_error_iff (nd : Node) (priv : Bytes) (idx : Nat) (e : Err)
+    (hs : nd.scheme = .kholaw) :
+    kholawCkdPriv nd priv idx = .error e ↔
+      e = .key ∧ (childLeftVal ((ckdZ nd priv idx).take 32) (priv.take 32) % edL = 0 ∨
+        2 ^ 256 ≤ childLeftVal ((ckdZ nd priv idx).take 32) (priv.take 32)) := by
+  rw [← kholaw_child_left_error_iff]
+  constructor
+  · exact kholawCkdPriv_kholaw_error nd priv idx e hs
+  · intro h
+    rw [kholawCkdPriv_eq, hs, h]; rfl
+
+/-- `ChildKey` never raises `OverflowError` on a private Khovratovich-Law node (at any size of the
+left scalar: a sum that needs more than 32 bytes is refused with `Bip32KeyError`) -/
+theorem kholawChildKey_kholaw_never_overflow (nd : Node) (idx : Nat) (k : Bytes)
+    (hs : nd.scheme = .kholaw) (hp : nd.priv = some k) :
     kholawChildKey nd idx ≠ .error .overflow := by
   intro h
   by_cases hi : idx < 2 ^ 32
@@ -769,12 +864,31 @@ theorem kholawChildKey_kholaw_no_overflow (nd : Node) (idx : Nat) (k : Bytes)
   rw [kholawChildKey_priv nd idx k hi hp] at h
   rcases (Slip10.bind_error_iff _ _ _).mp h with h1 | ⟨x, _, h2⟩
   · have := kholawCkdPriv_kholaw_error nd k idx _ hs h1
-    have := ((kholaw_child_left_overflow_iff _ _).mp this).2
-    have := childLeftVal_lt ((ckdZ nd k idx).take 32) (k.take 32)
-    unfold leftVal at hk; omega
+    exact kholaw_child_left_never_overflow _ _ this
   · split at h2
     · cases h2
     · rcases nodeOfPriv_error _ _ _ _ _ _ _ _ h2 with ⟨e, _⟩ | ⟨e, _⟩ <;> cases e
+
+/-- while the left scalar is below `2^256 - 2^227` the new left half fits in 32 bytes, so the size
+refusal of `ChildKey` cannot happen … -/
+theorem kholawChildKey_kholaw_no_overflow (nd : Node) (idx : Nat) (k : Bytes)
+    (hk : leftVal k + 2 ^ 227 ≤ 2 ^ 256) :
+    childLeftVal ((ckdZ nd k idx).take 32) (k.take 32) < 2 ^ 256 := by
+  have := childLeftVal_lt ((ckdZ nd k idx).take 32) (k.take 32)
+  unfold leftVal at hk; omega
+
+/-- … and the derivation step fails only for `≡ 0 (mod L)` -/
+theorem kholawCkdPriv_kholaw_error_iff_of_lt (nd : Node) (k : Bytes) (idx : Nat) (e : Err)
+    (hs : nd.scheme = .kholaw) (hk : leftVal k + 2 ^ 227 ≤ 2 ^ 256) :
+    kholawCkdPriv nd k idx = .error e ↔
+      e = .key ∧ childLeftVal ((ckdZ nd k idx).take 32) (k.take 32) % edL = 0 := by
+  have hv := kholawChildKey_kholaw_no_overflow nd idx k hk
+  rw [kholawCkdPriv_kholaw_error_iff nd k idx e hs]
+  constructor
+  · rintro ⟨he, h | h⟩
+    · exact ⟨he, h⟩
+    · omega
+  · rintro ⟨he, h⟩; exact ⟨he, Or.inl h⟩
 
 /-- **kholaw_depth_bound** at the path level: deriving `l` (any mix of hardened and soft indices)
 from a private Khovratovich-Law node yields a private node whose left scalar grew by less than
@@ -803,26 +917,41 @@ theorem kholaw_path_bound (l : List Nat) (nd c : Node) (k : Bytes)
       unfold leftVal at *; omega
     · intro h8; apply d; rw [hv]; exact Nat.dvd_add (Dvd.intro_left _ rfl) h8
 
-/-- no `OverflowError` anywhere along a path of at most `2^28 - 1` levels … -/
-theorem kholaw_path_no_overflow (l : List Nat) (nd : Node) (k : Bytes)
-    (hs : nd.scheme = .kholaw) (hp : nd.priv = some k)
-    (hk : leftVal k + l.length * 2 ^ 227 ≤ 2 ^ 256) :
+/-- `OverflowError` is never raised anywhere along a path from a private Khovratovich-Law node -/
+theorem kholaw_path_never_overflow (l : List Nat) (nd : Node) (k : Bytes)
+    (hs : nd.scheme = .kholaw) (hp : nd.priv = some k) :
     l.foldlM kholawChildKey nd ≠ .error .overflow := by
   induction l generalizing nd k with
   | nil => simp [pure, Except.pure]
   | cons i l ih =>
     rw [List.foldlM_cons]
-    simp only [List.length_cons, Nat.add_mul, Nat.one_mul] at hk
     intro h
     rcases (Slip10.bind_error_iff _ _ _).mp h with h1 | ⟨n1, h1, h2⟩
-    · have hk' : leftVal k + 2 ^ 227 ≤ 2 ^ 256 := by
-        rw [← Nat.add_assoc] at hk
-        omega
-      exact kholawChildKey_kholaw_no_overflow nd i k hs hp hk' h1
-    · obtain ⟨k1, p1, s1, _, _, _, v1⟩ := kholawChildKey_kholaw_priv_ok nd n1 i k hs hp h1
-      have hlt := childLeftVal_lt ((ckdZ nd k i).take 32) (k.take 32)
-      refine ih n1 k1 s1 p1 ?_ h2
-      rw [v1]; unfold leftVal at hk; omega
+    · exact kholawChildKey_kholaw_never_overflow nd i k hs hp h1
+    · obtain ⟨k1, p1, s1, _⟩ := kholawChildKey_kholaw_priv_ok nd n1 i k hs hp h1
+      exact ih n1 k1 s1 p1 h2
+
+/-- the size refusal never happens anywhere along a path of at most `2^28 - 1` levels: at every
+node `n` reached by a prefix `pre` of the path, the next derivation step (index `i`) computes a left
+half below `2^256`, so it can fail only with `Bip32KeyError` and only for `≡ 0 (mod L)` … -/
+theorem kholaw_path_no_overflow (l : List Nat) (nd : Node) (k : Bytes)
+    (hs : nd.scheme = .kholaw) (hp : nd.priv = some k)
+    (hk : leftVal k + l.length * 2 ^ 227 ≤ 2 ^ 256)
+    (pre : List Nat) (i : Nat) (post : List Nat) (hl : l = pre ++ i :: post) (n : Node)
+    (hn : pre.foldlM kholawChildKey nd = .ok n) :
+    ∃ k', n.priv = some k' ∧ n.scheme = .kholaw ∧
+      childLeftVal ((ckdZ n k' i).take 32) (k'.take 32) < 2 ^ 256 ∧
+      ∀ e, kholawCkdPriv n k' i = .error e ↔
+        e = .key ∧ childLeftVal ((ckdZ n k' i).take 32) (k'.take 32) % edL = 0 := by
+  obtain ⟨k', p', s', -, b, -⟩ := kholaw_path_bound pre nd n k hs hp hn
+  have hlen : pre.length + 1 ≤ l.length := by
+    rw [hl, List.length_append, List.length_cons]; omega
+  have hmul : (pre.length + 1) * 2 ^ 227 ≤ l.length * 2 ^ 227 := Nat.mul_le_mul_right _ hlen
+  rw [Nat.add_mul, Nat.one_mul] at hmul
+  have hk' : leftVal k' + 2 ^ 227 ≤ 2 ^ 256 := by
+    unfold leftVal at *; omega
+  exact ⟨k', p', s', kholawChildKey_kholaw_no_overflow n i k' hk',
+    fun e => kholawCkdPriv_kholaw_error_iff_of_lt n k' i e s' hk'⟩
 
 theorem kholawMaster_ok (s : Scheme) (gen : Bytes → R (Bytes × Bytes)) (seed : Bytes) (m : Node)
     (h : kholawMaster s gen seed = .ok m) :
@@ -833,18 +962,32 @@ theorem kholawMaster_ok (s : Scheme) (gen : Bytes → R (Bytes × Bytes)) (seed 
   obtain ⟨_, pub, hpub, rfl⟩ := (nodeOfPriv_ok_iff ..).mp h2
   exact ⟨k, cc, h1, rfl, rfl, rfl, rfl, rfl, rfl, hpub⟩
 
-/-- a Khovratovich-Law (or Icarus) master node followed by any path of at most `2^27` levels (the
-library stops at depth 255) never raises `OverflowError` from `ToBytes(…, 32)` -/
+/-- a Khovratovich-Law (or Icarus) master node followed by any path of at most 255 levels (the
+library's depth limit) never meets the size refusal: at every node reached along the path the next
+left half is below `2^256`, so a derivation step can fail only with `Bip32KeyError`, and only because
+the new left half is `≡ 0 (mod L)` -/
 theorem kholaw_master_path_no_overflow (gen : Bytes → R (Bytes × Bytes)) (seed : Bytes) (m : Node)
     (hgen : ∀ k cc, gen seed = .ok (k, cc) → Clamped (k.take 32))
-    (h : kholawMaster .kholaw gen seed = .ok m) (l : List Nat) (hl : l.length ≤ 255) :
-    l.foldlM kholawChildKey m ≠ .error .overflow := by
+    (h : kholawMaster .kholaw gen seed = .ok m) (l : List Nat) (hl : l.length ≤ 255)
+    (pre : List Nat) (i : Nat) (post : List Nat) (hsplit : l = pre ++ i :: post) (n : Node)
+    (hn : pre.foldlM kholawChildKey m = .ok n) :
+    ∃ k', n.priv = some k' ∧ n.scheme = .kholaw ∧
+      childLeftVal ((ckdZ n k' i).take 32) (k'.take 32) < 2 ^ 256 ∧
+      ∀ e, kholawCkdPriv n k' i = .error e ↔
+        e = .key ∧ childLeftVal ((ckdZ n k' i).take 32) (k'.take 32) % edL = 0 := by
   obtain ⟨k, cc, hg, hp, _, hs, _⟩ := kholawMaster_ok _ _ _ _ h
   have hc := hgen k cc hg
-  apply kholaw_path_no_overflow l m k hs hp
+  apply kholaw_path_no_overflow l m k hs hp _ pre i post hsplit n hn
   have := hc.lt255
   have : l.length * 2 ^ 227 ≤ 255 * 2 ^ 227 := Nat.mul_le_mul_right _ hl
   unfold leftVal; omega
+
+/-- … and `OverflowError` is never raised along any path from such a master -/
+theorem kholaw_master_path_never_overflow (gen : Bytes → R (Bytes × Bytes)) (seed : Bytes) (m : Node)
+    (h : kholawMaster .kholaw gen seed = .ok m) (l : List Nat) :
+    l.foldlM kholawChildKey m ≠ .error .overflow := by
+  obtain ⟨k, cc, hg, hp, _, hs, _⟩ := kholawMaster_ok _ _ _ _ h
+  exact kholaw_path_never_overflow l m k hs hp
 
 /-! ## Shelley addresses -/
 
